@@ -15,6 +15,8 @@ import (
 	"fmt"
 	"net/http"
 	"net/http/httptest"
+	"reflect"
+	"slices"
 	"strings"
 	"testing"
 	"time"
@@ -37,7 +39,7 @@ var (
 		// errors that match the sentinels only through errors.Is on a tree or an Is method
 		"invalid-token-joined", "invalid-token-double", "invalid-token-custom-is", "oauth-error-joined"}
 	// request variants, all run inside one bubble per cell of the product
-	c14Variants = []string{"get", "stacked", "post", "options-preflight"}
+	c14Variants = []string{"get", "stacked", "post", "options-preflight", "slow-verifier"}
 	c14Scopes   = []struct{ required, granted []string }{
 		{nil, nil}, {nil, []string{"read"}}, {[]string{"read"}, []string{"read"}}, {[]string{"read"}, nil}, {[]string{"read", "admin"}, []string{"read"}},
 		{[]string{"read", "admin"}, []string{"admin", "read", "extra"}}, {[]string{"read", "admin"}, []string{"read", "read"}}, {[]string{"read", "read"}, []string{"read"}},
@@ -54,7 +56,7 @@ func TestVerifC14(t *testing.T) {
 		Property:   "C14",
 		Cases:      total,
 		Exhaustive: true,
-		Rule: fmt.Sprintf("complete product (%d cases x %d request variants = %d cells): %d Authorization shapes x %d verifier outcomes (incl. errors matching the sentinels only via errors.Join, a double %%w or an Is method) x %d required/granted scope pairs x %d expirations (relative to now and skew, +-1 ns) x %d option combinations, each as {GET, GET behind an outer bearer middleware with its own verifier, POST with a body, OPTIONS with CORS preflight headers} through the real middleware in a synctest bubble. "+
+		Rule: fmt.Sprintf("complete product (%d cases x %d request variants = %d cells): %d Authorization shapes x %d verifier outcomes (incl. errors matching the sentinels only via errors.Join, a double %%w or an Is method) x %d required/granted scope pairs x %d expirations (relative to now and skew, +-1 ns) x %d option combinations, each as {GET, GET behind an outer bearer middleware with its own verifier, POST with a body, OPTIONS with CORS preflight headers, GET with a verifier that takes 10 s (expirations then relative to the instant the verifier returns, i.e. the instant the handler would start)} through the real middleware in a synctest bubble. "+
 			"non-trivial: every case whose header is syntactically clear-cut; distinct = distinct cases", total, len(c14Variants), total*len(c14Variants), len(c14Headers), len(c14Outcomes), len(c14Scopes), len(c14Exps), len(c14Opts)),
 		MinNontrivial: 1000,
 		Assumptions: []string{"header shapes with extra blanks or tabs are borderline: either verdict (401, or treated as a credential) is accepted for them, but the handler/verdict must be consistent",
@@ -92,6 +94,13 @@ func cellC14(c *vh.Case, header, class, outcome string, required, granted []stri
 	// nanosecond offsets around the deadline stay within one wall-clock second
 	time.Sleep(300*time.Millisecond + 7*time.Nanosecond)
 	now := time.Now()
+	// A verifier that takes its time (a remote introspection call): what counts is whether the token is still good
+	// when the verifier is done and the handler would start, so every expiration below is relative to that instant.
+	delay := time.Duration(0)
+	if variant == "slow-verifier" {
+		delay = 10 * time.Second
+		now = now.Add(delay)
+	}
 	var opts *auth.RequireBearerTokenOptions
 	skew := time.Duration(0)
 	switch optk {
@@ -142,10 +151,15 @@ func cellC14(c *vh.Case, header, class, outcome string, required, granted []stri
 	default:
 		expiration = now.Add(time.Hour)
 	}
-	info := &auth.TokenInfo{Scopes: granted, Expiration: expiration, UserID: "u"}
+	info := &auth.TokenInfo{Scopes: granted, Expiration: expiration, UserID: "u", Extra: map[string]any{"tenant": "t1"}}
+	infoWas := *info // what the verifier hands out, member by member (the middleware has no business changing it)
+	infoWas.Scopes = append([]string(nil), granted...)
 	verifierCalls := 0
 	verifier := func(ctx context.Context, token string, req *http.Request) (*auth.TokenInfo, error) {
 		verifierCalls++
+		if delay > 0 {
+			time.Sleep(delay)
+		}
 		switch outcome {
 		case "ok":
 			return info, nil
@@ -270,6 +284,12 @@ func cellC14(c *vh.Case, header, class, outcome string, required, granted []stri
 			c.Violate("token-info-not-passed", "handler saw TokenInfo %p, verifier returned %p", seen, info)
 			return
 		}
+	}
+	if !info.Expiration.Equal(infoWas.Expiration) || info.Expiration != infoWas.Expiration || info.UserID != infoWas.UserID || !slices.Equal(info.Scopes, infoWas.Scopes) || !reflect.DeepEqual(info.Extra, map[string]any{"tenant": "t1"}) {
+		c.Violate("token-info-altered", "the verifier's TokenInfo was %+v before the request and is %+v after it (status %d, opts %s)", infoWas, *info, st, optk)
+		return
+	}
+	if admitted {
 	} else if handlerRuns != 0 {
 		c.Violate("rejected-request-reached-handler", "status %d but the handler ran %d time(s)", st, handlerRuns)
 		return
